@@ -311,6 +311,13 @@ func runWorker(chk *Check, tier string, seed int64, spec, out string, from int, 
 		os.Exit(2)
 	}
 	quiet()
+	// hard cap on the address space of a worker (and of the CLI children it starts): a case that makes the code under
+	// test (or a generator) allocate without bound dies alone and is attributed to that case, instead of taking the
+	// machine down. The coordinator and single-case replays are not capped.
+	if os.Getenv("VERIF_NO_RLIMIT") == "" {
+		lim := uint64(envInt("VERIF_WORKER_AS_GB", 6)) << 30
+		syscall.Setrlimit(syscall.RLIMIT_AS, &syscall.Rlimit{Cur: lim, Max: lim})
+	}
 	root := scratchRoot(chk.ID)
 	defer os.RemoveAll(root)
 	n := chk.Cases(tier)
